@@ -140,7 +140,10 @@ func (j *jsonCtx) scanValue(d *jsonDec, p int) (tok Value, next int, errMsg stri
 				return nil, 0, "invalid character in numeric literal"
 			}
 		}
-		if j.eq(in[q], '0') {
+		if q+1 >= len(in) || !j.digit(in[q+1]) {
+			// a single integer digit: "0" and "7" scan alike
+			q++
+		} else if j.eq(in[q], '0') {
 			q++
 		} else {
 			for q < len(in) && j.digit(in[q]) {
